@@ -4,13 +4,74 @@ package relay
 
 import (
 	"encoding/binary"
+	"net"
 	"strings"
 	"testing"
+
+	"github.com/veesix-networks/osvbng/pkg/config/ip"
+	"github.com/veesix-networks/osvbng/pkg/dhcp6"
 )
+
+func c07RelayIA(a *dhcp6.IANAOption, p *dhcp6.IAPDOption) []string {
+	if a != nil {
+		return []string{c07U(uint64(a.IAID)), c07U(uint64(a.T1)), c07U(uint64(a.T2)), c07TBN(a.Address), "0",
+			c07U(uint64(a.PreferredTime)), c07U(uint64(a.ValidTime))}
+	}
+	if p != nil {
+		return []string{c07U(uint64(p.IAID)), c07U(uint64(p.T1)), c07U(uint64(p.T2)), c07TBN(p.Prefix), c07U(uint64(p.PrefixLen)),
+			c07U(uint64(p.PreferredTime)), c07U(uint64(p.ValidTime))}
+	}
+	return []string{"nil"}
+}
+
+func c07RelayMsg6(m *dhcp6.Message) []string {
+	if m == nil {
+		return []string{"nil"}
+	}
+	o := m.Options
+	toks := []string{c07U(uint64(m.MsgType)), c07TB(m.TransactionID[:]), c07TBN(o.ClientID), c07TBN(o.ServerID)}
+	toks = append(toks, c07RelayIA(o.IANA, nil)...)
+	toks = append(toks, c07RelayIA(nil, o.IAPD)...)
+	toks = append(toks, c07U(uint64(len(o.DNS))))
+	for _, d := range o.DNS {
+		toks = append(toks, c07TB(d))
+	}
+	toks = append(toks, c07TBN(o.InterfaceID), c07TBN(o.RemoteID), c07TBN(o.ClientLinkLayerAddr), c07Bool(o.RapidCommit))
+	if o.StatusCode != nil {
+		toks = append(toks, c07U(uint64(o.StatusCode.Code)), c07TB([]byte(o.StatusCode.Message)))
+	} else {
+		toks = append(toks, "nil")
+	}
+	return toks
+}
 
 func c07Relay(entry string, n []uint64, f []string) string {
 	data := c07Arg(f, 0)
 	switch entry {
+	case "bldrelay": // bldrelay <hop,enterprise,depth> <link> <peer> <ifid> <remote> <subscriber> <client>
+		p := &RelayForwardParams{HopCount: uint8(c07Num(n, 0)), LinkAddress: net.IP(c07Arg(f, 0)), PeerAddress: net.IP(c07Arg(f, 1)),
+			InterfaceID: c07Arg(f, 2), RemoteID: c07Arg(f, 3), EnterpriseNumber: uint32(c07Num(n, 1)), SubscriberID: c07Arg(f, 4)}
+		msg := c07Arg(f, 5)
+		for d := uint64(0); d < c07Num(n, 2); d++ {
+			msg = BuildRelayForward(msg, p)
+		}
+		msg = append(make([]byte, 0, len(msg)), msg...)
+		m, ri := dhcp6.UnwrapRelay(msg)
+		toks := append([]string{c07TB(msg)}, c07RelayMsg6(m)...)
+		if ri == nil {
+			toks = append(toks, "nil")
+		} else {
+			toks = append(toks, c07U(uint64(ri.HopCount)), c07TB(ri.LinkAddr), c07TB(ri.PeerAddr), c07TBN(ri.InterfaceID),
+				c07TBN(ri.RemoteID), c07TBN(ri.ClientLinkLayerAddr))
+		}
+		return c07Ok(toks...)
+	case "bld82": // bld82 <includeFlags,unicast> <circuit-id> <remote-id>: BuildOption82 with literal formats
+		cfg := &ip.Option82Config{CircuitIDFormat: string(c07Arg(f, 0)), RemoteIDFormat: string(c07Arg(f, 1)), IncludeFlags: c07Num(n, 0) != 0}
+		out, err := BuildOption82(cfg, &Option82Params{}, c07Num(n, 1) != 0)
+		if err != nil {
+			return "err 1"
+		}
+		return c07Ok(c07TB(out))
 	case "o82ins": // o82ins <policy 0 replace|1 keep|2 drop> <pkt> <opt82>
 		pol := "replace"
 		switch c07Num(n, 0) {
